@@ -2,9 +2,11 @@ package server
 
 import (
 	"context"
+	"errors"
 	"fmt"
 	"io"
 	"log/slog"
+	"math"
 	"net/http"
 	"strconv"
 	"strings"
@@ -176,7 +178,11 @@ func parseRangeHeader(rangeHeader string) ([]storage.ByteRange, error) {
 		if byteSplit[1] != "" {
 			endByte, err := strconv.ParseInt(byteSplit[1], 10, 64)
 			if err != nil {
-				return nil, errInvalidByteRange
+				// A last-byte-pos (or suffix length) beyond int64 is still valid per
+				// RFC 7233; it is clamped to the object size by the storage layer.
+				if !errors.Is(err, strconv.ErrRange) || endByte != math.MaxInt64 {
+					return nil, errInvalidByteRange
+				}
 			}
 			end = &endByte
 		}
@@ -191,7 +197,11 @@ func parseRangeHeader(rangeHeader string) ([]storage.ByteRange, error) {
 			// Normal range: convert inclusive end to exclusive end
 			var exclusiveEnd *int64
 			if end != nil {
-				excEnd := *end + 1
+				// Saturate instead of overflowing for last-byte-pos = math.MaxInt64.
+				excEnd := *end
+				if excEnd < math.MaxInt64 {
+					excEnd++
+				}
 				exclusiveEnd = &excEnd
 			}
 			ranges = append(ranges, storage.ByteRange{Start: start, End: exclusiveEnd})
